@@ -586,6 +586,7 @@ func engTxn(e *Env) {
 		}
 	}
 	e.writeCasesSharded("cases_C06", "CorrC06", "tcase", cases, 400)
+	acpDiscardWitness(e)
 }
 
 func txnCase(ndocs int, obs []txObs) string {
